@@ -4,6 +4,8 @@ import Propka.Gen.Cfg
 import Propka.Gen.Consts
 import Propka.Proofs.Angle
 import Propka.Props.C08
+import Propka.Proofs.Scoring
+import Propka.Proofs.Rotation
 import Mathlib.Data.Real.Basic
 import Mathlib.Tactic.Linarith
 import Mathlib.Tactic.Positivity
@@ -354,3 +356,252 @@ theorem average_in_range (xs : List ℚ) (hne : xs ≠ []) (a b : ℚ) (h : ∀ 
 
 example : avgScalar (0 : ℚ) [1, 1/2] = 3/4 := by unfold avgScalar; norm_num
 end Propka.Dets
+
+/-! ## the whole scoring phase (`Model/Scoring.lean`): signs and bounds of everything `score` leaves on a group -/
+namespace Propka.Scoring
+open Propka.Energy
+
+/-! ### signs and bounds of what `score` leaves on a group (over the reals) -/
+
+theorem zero_eq : (zero : ℝ) = 0 := by simp [zero]
+
+theorem hbond_nonneg (dist dmax c1 c2 f : ℝ) : 0 ≤ hbondEnergy dist dmax c1 c2 f := by
+  unfold hbondEnergy; simp only [abs_eq]; exact abs_nonneg _
+
+theorem buried_unit (p : SP ℝ) (groups : Tab (GroupT ℝ)) (nv : Nat → Nat) (g : Nat) :
+    0 ≤ buriedOf p groups nv g ∧ buriedOf p groups nv g ≤ 1 := by
+  unfold buriedOf
+  split
+  · exact weight_unit _ _
+  · rw [zero_eq]; exact ⟨le_refl _, zero_le_one⟩
+
+/-- **Desolvation terms and buried fraction of every record.** -/
+theorem score_desolvation_signs (p : SP ℝ) (h : WellFormed p.ep) (env : Env ℝ) (atoms : Tab AtomT) (groups : Tab (GroupT ℝ))
+    (g : Nat) (hg : g < groups.n) :
+    ∃ o, (score p env atoms groups)[g]? = some o ∧ 0 ≤ o.buried ∧ o.buried ≤ 1 ∧
+      ((gget groups g).q < 0 → 0 ≤ o.evol) ∧ (0 < (gget groups g).q → o.evol ≤ 0) ∧ 0 ≤ o.eloc := by
+  obtain ⟨o, ho, hb, hv, hl, _⟩ := record_unfold p env atoms groups g hg
+  have hbu := buried_unit p groups (nvF (desTab p env atoms groups)) g
+  refine ⟨o, ho, by rw [hb]; exact hbu.1, by rw [hb]; exact hbu.2, ?_, ?_, ?_⟩
+  · intro hq; rw [hv]; unfold evolOf
+    split
+    · exact (desolvation_sign p.ep h _ _ _ hbu.1 hbu.2).1 hq
+    · rw [zero_eq]
+  · intro hq; rw [hv]; unfold evolOf
+    split
+    · exact (desolvation_sign p.ep h _ _ _ hbu.1 hbu.2).2 hq
+    · rw [zero_eq]
+  · rw [hl]; unfold elocOf
+    split
+    · exact reorganisation_nonneg p.ep h _ _ hbu.1
+    · rw [zero_eq]
+
+theorem bbValue_form (p : SP ℝ) (env : Env ℝ) (atoms : Tab AtomT) (tg bg : GroupT ℝ) (r : Best ℝ) (v : ℝ)
+    (h : bbValue p env atoms tg bg r = some v) : ∃ e : ℝ, 0 ≤ e ∧ v = tg.q * e := by
+  unfold bbValue at h
+  simp only at h
+  split at h
+  · exact absurd h (by simp)
+  · split at h
+    · split at h
+      · exact ⟨_, hbond_nonneg _ _ _ _ _, (Option.some.inj h).symm⟩
+      · exact absurd h (by simp)
+    · exact absurd h (by simp)
+
+theorem bbDet_form (p : SP ℝ) (env : Env ℝ) (atoms : Tab AtomT) (groups : Tab (GroupT ℝ)) (t b : Nat) (d : Det ℝ)
+    (h : bbDet p env atoms groups t b = some d) : ∃ e : ℝ, 0 ≤ e ∧ d.value = (gget groups t).q * e := by
+  unfold bbDet at h
+  simp only at h
+  split at h
+  · exact absurd h (by simp)
+  · split at h
+    · exact absurd h (by simp)
+    · split at h
+      · exact absurd h (by simp)
+      · obtain ⟨v, hv, hdv⟩ := Option.map_eq_some_iff.mp h
+        obtain ⟨e, he, hve⟩ := bbValue_form p env atoms _ _ _ v hv
+        exact ⟨e, he, by rw [← hdv]; exact hve⟩
+
+/-- **Every backbone determinant of every record is the group's charge times a non-negative hydrogen-bond energy**, so it
+    never raises an acid's pKa nor lowers a base's. -/
+theorem score_backbone_dets (p : SP ℝ) (env : Env ℝ) (atoms : Tab AtomT) (groups : Tab (GroupT ℝ)) (g : Nat) (hg : g < groups.n) :
+    ∃ o, (score p env atoms groups)[g]? = some o ∧
+      ∀ d ∈ o.bb, ∃ e : ℝ, 0 ≤ e ∧ d.value = (gget groups g).q * e ∧
+        ((gget groups g).q < 0 → d.value ≤ 0) ∧ (0 < (gget groups g).q → 0 ≤ d.value) := by
+  obtain ⟨o, ho, _, _, _, hbb, _⟩ := record_unfold p env atoms groups g hg
+  refine ⟨o, ho, ?_⟩
+  intro d hd
+  have h1 := hbb d hd
+  unfold bbDets at h1
+  split at h1
+  · obtain ⟨b, _, hb⟩ := List.mem_filterMap.mp h1
+    obtain ⟨e, he, hde⟩ := bbDet_form p env atoms groups g b d hb
+    refine ⟨e, he, hde, ?_, ?_⟩
+    · intro hq; rw [hde]; exact mul_nonpos_of_nonpos_of_nonneg hq.le he
+    · intro hq; rw [hde]; exact mul_nonneg hq.le he
+  · exact absurd h1 (by simp)
+
+/-- **Every ion determinant is minus the ion's charge times a Coulomb energy between 0 and the configured maximum.** -/
+theorem score_ion_dets (p : SP ℝ) (h : WellFormed p.ep) (env : Env ℝ) (groups : Tab (GroupT ℝ)) (nv : Nat → Nat) (g : Nat) :
+    ∀ d ∈ ionDets p env groups nv g, ∃ e : ℝ, 0 ≤ e ∧ e ≤ p.ep.cscale / (p.ep.diel2 * p.ep.cc1) ∧
+      d.value = -(gget groups d.partner).q * e := by
+  intro d hd
+  unfold ionDets at hd
+  split at hd
+  · obtain ⟨i, _, hi⟩ := List.mem_filterMap.mp hd
+    unfold ionDet at hi
+    split at hi
+    · have := Option.some.inj hi
+      subst this
+      have hw := pair_weight_unit p.ep ((nv g : ℕ) : ℝ) ((nv i : ℕ) : ℝ)
+      exact ⟨_, (coulomb_range p.ep h _ _ hw.1 hw.2).1, (coulomb_range p.ep h _ _ hw.1 hw.2).2, rfl⟩
+    · exact absurd hi (by simp)
+  · exact absurd hd (by simp)
+
+
+theorem coulVal_range (p : SP ℝ) (h : WellFormed p.ep) (g1 g2 : GroupT ℝ) (n1 n2 dist v : ℝ) (hv : coulVal p g1 g2 n1 n2 dist = some v) :
+    0 ≤ v ∧ v ≤ p.ep.cscale / (p.ep.diel2 * p.ep.cc1) := by
+  unfold coulVal at hv
+  split at hv
+  · have := Option.some.inj hv; subst this
+    have hw := pair_weight_unit p.ep n1 n2
+    exact coulomb_range p.ep h _ _ hw.1 hw.2
+  · exact absurd hv (by simp)
+
+
+/-- **Every non-iterative Coulomb determinant is an output of the Coulomb pair rule, applied to a pair the loop visited,
+    with a Coulomb energy between 0 and the configured maximum**; every non-iterative side-chain determinant is an output
+    of the side-chain pair rule.  (`coulomb_pair_signs`, `sidechain_pair_signs` then give the signs.) -/
+theorem pair_dets_from_rules (p : SP ℝ) (h : WellFormed p.ep) (env : Env ℝ) (atoms : Tab AtomT) (groups : Tab (GroupT ℝ)) (nv : Nat → Nat)
+    (e : Em ℝ) (he : e ∈ nonIterEms (pairResults p env atoms groups nv)) :
+    ∃ ab ∈ visited groups, ∃ v : ℝ,
+      (e.kind = .coulomb ∧ 0 ≤ v ∧ v ≤ p.ep.cscale / (p.ep.diel2 * p.ep.cc1) ∧
+        e ∈ tagOut ab.1 ab.2 .coulomb (coulombRule (gget groups ab.1).q (gget groups ab.2).q (gget groups ab.1).model (gget groups ab.2).model v)) ∨
+      (e.kind = .sidechain ∧
+        e ∈ tagOut ab.1 ab.2 .sidechain (sidechainRule (gget groups ab.1).q (gget groups ab.2).q (gget groups ab.1).model (gget groups ab.2).model v)) := by
+  unfold nonIterEms pairResults at he
+  obtain ⟨r, hr, her⟩ := List.mem_flatMap.mp he
+  obtain ⟨ab, hab, rfl⟩ := List.mem_map.mp hr
+  refine ⟨ab, hab, ?_⟩
+  unfold pairStep at her
+  simp only at her
+  split at her
+  · split at her
+    · split at her <;> exact absurd her (by simp)
+    · simp only [List.mem_append] at her
+      rcases her with h1 | h2
+      · split at h1
+        · rename_i v _
+          split at h1
+          · exact ⟨v, Or.inr ⟨mem_tagOut_kind _ _ _ _ _ h1, h1⟩⟩
+          · exact absurd h1 (by simp)
+        · exact absurd h1 (by simp)
+      · split at h2
+        · rename_i v hv
+          split at h2
+          · obtain ⟨h0, hb⟩ := coulVal_range p h _ _ _ _ _ v hv
+            exact ⟨v, Or.inl ⟨mem_tagOut_kind _ _ _ _ _ h2, h0, hb, h2⟩⟩
+          · exact absurd h2 (by simp)
+        · exact absurd h2 (by simp)
+    · exact absurd her (by simp)
+  · exact absurd her (by simp)
+
+
+/-- every entry of the iterative list stems from a visited pair, with a Coulomb value between 0 and the configured maximum -/
+theorem inters_from_pairs (p : SP ℝ) (h : WellFormed p.ep) (env : Env ℝ) (atoms : Tab AtomT) (groups : Tab (GroupT ℝ)) (nv : Nat → Nat)
+    (it : Iter.Inter ℝ) (hit : it ∈ iterInters (pairResults p env atoms groups nv)) :
+    (it.g1, it.g2) ∈ visited groups ∧ 0 ≤ it.coul ∧ it.coul ≤ p.ep.cscale / (p.ep.diel2 * p.ep.cc1) := by
+  unfold iterInters pairResults at hit
+  obtain ⟨r, hr, hri⟩ := List.mem_filterMap.mp hit
+  obtain ⟨ab, hab, rfl⟩ := List.mem_map.mp hr
+  unfold pairStep at hri
+  simp only at hri
+  have hpos : 0 ≤ p.ep.cscale / (p.ep.diel2 * p.ep.cc1) :=
+    div_nonneg h.cs (mul_nonneg h.diel.1.le h.cc.1.le)
+  split at hri
+  · split at hri
+    · split at hri
+      · have := Option.some.inj hri; subst this
+        refine ⟨hab, ?_⟩
+        simp only
+        cases hc : coulVal p (gget groups ab.1) (gget groups ab.2) ((nv ab.1 : ℕ) : ℝ) ((nv ab.2 : ℕ) : ℝ) (Trig.sqrt (env.sqGG ab.1 ab.2)) with
+        | none => simp only [Option.getD_none, zero_eq]; exact ⟨le_refl _, hpos⟩
+        | some v => simp only [Option.getD_some]; exact coulVal_range p h _ _ _ _ _ v hc
+      · exact absurd hri (by simp)
+    · exact absurd hri (by simp)
+    · exact absurd hri (by simp)
+  · exact absurd hri (by simp)
+
+
+theorem mem_iterEms (p : SP ℝ) (groups : Tab (GroupT ℝ)) (st : Nat → Stage ℝ) (inters : List (Iter.Inter ℝ)) (g partner : Nat) (k : Iter.Kind) (v : ℝ)
+    (h : (⟨g, partner, iterKind k, v⟩ : Em ℝ) ∈ iterEms p groups st inters) :
+    ∃ it ∈ inters, ∃ old ann, (⟨g, partner, k, v⟩ : Iter.Det ℝ) ∈ (Iter.interStep p.minV (iterGroups p groups st) old it ann).1 := by
+  unfold iterEms at h
+  obtain ⟨d, hd, he⟩ := List.mem_map.mp h
+  have hk : d.kind = k := by
+    have := congrArg Em.kind he
+    simp only at this
+    cases hdk : d.kind <;> cases k <;> simp_all [iterKind]
+  have : d = ⟨g, partner, k, v⟩ := by
+    cases d; simp_all
+  rw [← this]
+  exact Iter.solve_dets _ _ _ d hd
+
+/-- **Every determinant of every final record was produced by exactly one of the modelled rules** - a backbone hydrogen bond
+    (charge times a non-negative energy), an ion (minus the ion's charge times a Coulomb energy in range), a non-iterative
+    pair rule applied to a visited pair (Coulomb energy in range), or one of the iterative pair rules applied to a listed
+    interaction that stems from a visited pair (Coulomb value in range) - whatever the structure. -/
+theorem score_dets_from_rules (p : SP ℝ) (h : WellFormed p.ep) (env : Env ℝ) (atoms : Tab AtomT) (groups : Tab (GroupT ℝ))
+    (g : Nat) (hg : g < groups.n) :
+    ∃ o, (score p env atoms groups)[g]? = some o ∧
+      (∀ d ∈ o.bb, ∃ e : ℝ, 0 ≤ e ∧ d.value = (gget groups g).q * e) ∧
+      (∀ d ∈ o.cb,
+        (∃ e : ℝ, 0 ≤ e ∧ e ≤ p.ep.cscale / (p.ep.diel2 * p.ep.cc1) ∧ d.value = -(gget groups d.partner).q * e) ∨
+        (∃ ab ∈ visited groups, ∃ v : ℝ, 0 ≤ v ∧ v ≤ p.ep.cscale / (p.ep.diel2 * p.ep.cc1) ∧
+          (⟨g, d.partner, .coulomb, d.value⟩ : Em ℝ) ∈ tagOut ab.1 ab.2 .coulomb
+            (coulombRule (gget groups ab.1).q (gget groups ab.2).q (gget groups ab.1).model (gget groups ab.2).model v)) ∨
+        (∃ it : Iter.Inter ℝ, (it.g1, it.g2) ∈ visited groups ∧ 0 ≤ it.coul ∧ it.coul ≤ p.ep.cscale / (p.ep.diel2 * p.ep.cc1) ∧
+          ∃ gs old ann, (⟨g, d.partner, .coulomb, d.value⟩ : Iter.Det ℝ) ∈ (Iter.interStep p.minV gs old it ann).1)) ∧
+      (∀ d ∈ o.sc,
+        (∃ ab ∈ visited groups, ∃ v : ℝ, (⟨g, d.partner, .sidechain, d.value⟩ : Em ℝ) ∈ tagOut ab.1 ab.2 .sidechain
+            (sidechainRule (gget groups ab.1).q (gget groups ab.2).q (gget groups ab.1).model (gget groups ab.2).model v)) ∨
+        (∃ it : Iter.Inter ℝ, (it.g1, it.g2) ∈ visited groups ∧
+          ∃ gs old ann, (⟨g, d.partner, .sidechain, d.value⟩ : Iter.Det ℝ) ∈ (Iter.interStep p.minV gs old it ann).1)) := by
+  obtain ⟨o, ho, _, _, _, hbb, hcb, hsc⟩ := record_unfold p env atoms groups g hg
+  refine ⟨o, ho, ?_, ?_, ?_⟩
+  · intro d hd
+    have h1 := hbb d hd
+    unfold bbDets at h1
+    split at h1
+    · obtain ⟨b, _, hb⟩ := List.mem_filterMap.mp h1
+      exact bbDet_form p env atoms groups g b d hb
+    · exact absurd h1 (by simp)
+  · intro d hd
+    rcases hcb d hd with h1 | h2 | h3
+    · exact Or.inl (score_ion_dets p h env groups _ g d h1)
+    · right; left
+      have hm := mem_emsOf _ _ _ _ h2
+      obtain ⟨ab, hab, v, hv⟩ := pair_dets_from_rules p h env atoms groups _ _ hm
+      rcases hv with ⟨_, h0, hb, hmem⟩ | ⟨hk, _⟩
+      · exact ⟨ab, hab, v, h0, hb, hmem⟩
+      · exact absurd hk (by simp)
+    · right; right
+      have hm := mem_emsOf _ _ _ _ h3
+      obtain ⟨it, hit, old, ann, hd'⟩ := mem_iterEms p groups _ _ g d.partner .coulomb d.value hm
+      obtain ⟨hv, h0, hb⟩ := inters_from_pairs p h env atoms groups _ it hit
+      exact ⟨it, hv, h0, hb, _, old, ann, hd'⟩
+  · intro d hd
+    rcases hsc d hd with h2 | h3
+    · left
+      have hm := mem_emsOf _ _ _ _ h2
+      obtain ⟨ab, hab, v, hv⟩ := pair_dets_from_rules p h env atoms groups _ _ hm
+      rcases hv with ⟨hk, _⟩ | ⟨_, hmem⟩
+      · exact absurd hk (by simp)
+      · exact ⟨ab, hab, v, hmem⟩
+    · right
+      have hm := mem_emsOf _ _ _ _ h3
+      obtain ⟨it, hit, old, ann, hd'⟩ := mem_iterEms p groups _ _ g d.partner .sidechain d.value hm
+      obtain ⟨hv, _, _⟩ := inters_from_pairs p h env atoms groups _ it hit
+      exact ⟨it, hv, _, old, ann, hd'⟩
+
+end Propka.Scoring
